@@ -90,6 +90,8 @@ structure State where
   /-- clocks of the circuit, `Clock::m_clockedNodes` (a set; kept as a duplicate-free list) -/
   nclocks : Nat
   clocked : Nat → List NodePort
+  /-- the clock object has not been destroyed (`Clock::~Clock`, Clock.cpp:41-45) -/
+  calive : Nat → Bool
   /-- `Circuit::m_nodes` (storage order) -/
   order : List Nat
   /-- `Circuit::m_nextNodeId` -/
@@ -114,6 +116,7 @@ def State.init : State where
   gnodes := fun _ => []
   nclocks := 0
   clocked := fun _ => []
+  calive := fun _ => false
   order := []
   nextId := 0
 
@@ -139,6 +142,10 @@ def ClockInv (size : Nat) (alive : Nat → Bool) (numClk : Nat → Nat) (clk : N
   (∀ h, h < size → alive h = true → ∀ p, p < numClk h → ∀ c ∈ clk h p, c < nclocks ∧ (clocked c).count ⟨h, p⟩ = 1) ∧
   (∀ c, c < nclocks → ∀ x ∈ clocked c, x.node < size ∧ alive x.node = true ∧ x.port < numClk x.node ∧ clk x.node x.port = some c)
 
+/-- no clock port refers to a destroyed clock -/
+def CAInv (size : Nat) (alive : Nat → Bool) (numClk : Nat → Nat) (clk : Nat → Nat → Option Nat) (calive : Nat → Bool) : Prop :=
+  ∀ h, h < size → alive h = true → ∀ p, p < numClk h → ∀ c ∈ clk h p, calive c = true
+
 /-- node ids are unique among live nodes and below the allocation counter -/
 def IdInv (size : Nat) (alive : Nat → Bool) (nid : Nat → Nat) (nextId : Nat) : Prop :=
   (∀ h, h < size → alive h = true → nid h < nextId) ∧
@@ -153,7 +160,8 @@ def GInv (s : State) : Prop :=
   EdgeInv s.size s.alive s.numIn s.inp s.numOut s.conns ∧
   GroupInv s.size s.alive s.grp s.ngroups s.gnodes ∧
   ClockInv s.size s.alive s.numClk s.clk s.nclocks s.clocked ∧
-  IdInv s.size s.alive s.nid s.nextId
+  IdInv s.size s.alive s.nid s.nextId ∧
+  CAInv s.size s.alive s.numClk s.clk s.calive
 
 /-- the well-formedness invariant of property C09 -/
 def Inv (s : State) : Prop := GInv s ∧ OrderInv s.size s.alive s.order
@@ -167,6 +175,8 @@ instance (size alive numClk clk nclocks clocked) : Decidable (ClockInv size aliv
   unfold ClockInv; infer_instance
 instance (size alive nid nextId) : Decidable (IdInv size alive nid nextId) := by
   unfold IdInv; infer_instance
+instance (size alive numClk clk calive) : Decidable (CAInv size alive numClk clk calive) := by
+  unfold CAInv; infer_instance
 instance (size alive order) : Decidable (OrderInv size alive order) := by
   unfold OrderInv; infer_instance
 instance (s : State) : Decidable (GInv s) := by unfold GInv; infer_instance
@@ -312,7 +322,7 @@ def setInsert (l : List NodePort) (x : NodePort) : List NodePort := if x ∈ l t
 /-- `BaseNode::attachClock` (Node.cpp:137-149) -/
 def attachClock (s : State) (h p : Nat) (c : Option Nat) : Res State :=
   if ¬ (s.live h ∧ p < s.numClk h) then .error .ub else
-  if ¬ (∀ x ∈ c, x < s.nclocks) then .error .ub else
+  if ¬ (∀ x ∈ c, x < s.nclocks ∧ s.calive x = true) then .error .ub else
   if s.clk h p = c then .ok s else
   (detachClock s h p).bind fun s1 =>
     match c with
@@ -376,7 +386,93 @@ def createGroup (s : State) : State :=
 
 /-- `Circuit::createClock` : a new clock nobody is attached to -/
 def createClock (s : State) : State :=
-  { s with nclocks := s.nclocks + 1, clocked := upd s.clocked s.nclocks [] }
+  { s with nclocks := s.nclocks + 1, clocked := upd s.clocked s.nclocks [], calive := upd s.calive s.nclocks true }
+
+/-- `while (!m_clockedNodes.empty()) m_clockedNodes.anyOrder().begin()->node->detachClock(…port);` (Clock.cpp:43-44); the set is
+unordered, the model takes the entries in list order (every order ends in the same state) -/
+def drainClock : Nat → State → Nat → Res State
+  | 0, s, c => if s.clocked c = [] then .ok s else .error .diverge
+  | fuel + 1, s, c =>
+    match s.clocked c with
+    | [] => .ok s
+    | x :: _ => (detachClock s x.node x.port).bind fun s1 => drainClock fuel s1 c
+
+/-- `Clock::~Clock` (Clock.cpp:41-45) of a clock that is not owned by the circuit -/
+def destroyClock (s : State) (c : Nat) : Res State :=
+  if ¬ (c < s.nclocks ∧ s.calive c = true) then .error .ub else
+  (drainClock (s.clocked c).length s c).bind fun s1 => .ok { s1 with calive := upd s1.calive c false }
+
+/-- `Circuit::createUnconnectedClone(src)` (Circuit.cpp:177-184) with `BaseNode::copyBaseToClone` (Node.cpp:217-229): a new node with
+the same number of input / output / clock ports, the same output types, nothing connected, **no clock attached**
+(`copy->m_clocks.resize(m_clocks.size())`), placed in the root group, next id. Returns the handle `s.size`. -/
+def cloneNode (s : State) (src : Nat) : Res State :=
+  if ¬ s.live src then .error .ub else
+  let h := s.size
+  let s1 := createNode s (s.isSig src) (s.numIn src) (s.numOut src) (s.numClk src)
+  let s2 := { s1 with ctype := fun x y => if x = h then s.ctype src y else s1.ctype x y }
+  moveToGroup s2 h (some 0)
+
+/-- `node->setId(m_nextNodeId++, {})` (Circuit.cpp:135) -/
+def setFreshId (s : State) (h : Nat) : State :=
+  { s with nid := upd s.nid h s.nextId, nextId := s.nextId + 1 }
+
+def foldRes {α : Type} (f : State → α → Res State) : State → List α → Res State
+  | s, [] => .ok s
+  | s, a :: l => (f s a).bind fun s1 => foldRes f s1 l
+
+/-- stable insertion sort of (source, clone) pairs by a key of the source (iteration order of `StableMap<BaseNode*, …>` / of the
+sorted `sortedNodes` vector: ascending node id) -/
+def insertByKey (key : Nat → Nat) (e : Nat × Nat) : List (Nat × Nat) → List (Nat × Nat)
+  | [] => [e]
+  | x :: xs => if key e.1 < key x.1 then e :: x :: xs else x :: insertByKey key e xs
+def sortByKey (key : Nat → Nat) (l : List (Nat × Nat)) : List (Nat × Nat) := l.foldl (fun acc e => insertByKey key e acc) []
+
+def lookupMap (m : List (Nat × Nat)) (k : Nat) : Option Nat := (m.find? fun e => e.1 = k).map (·.2)
+
+/-- scan phase of `Circuit::copySubnet` (Circuit.cpp:114-130): `openList` is a stack (head of the list = `back()`), `closed` the
+closed list, `m` the map source → clone in creation order -/
+def copyScan (inputs : List NodePort) : Nat → State → List NodePort → List Nat → List (Nat × Nat) → Res (State × List (Nat × Nat))
+  | 0, s, op, _, m => if op = [] then .ok (s, m) else .error .diverge
+  | fuel + 1, s, op, closed, m =>
+    match op with
+    | [] => .ok (s, m)
+    | np :: rest =>
+      if np.node ∈ closed then copyScan inputs fuel s rest closed m else
+      (cloneNode s np.node).bind fun s1 =>
+        let pushed := (List.range (s.numIn np.node)).foldl (fun (acc : List NodePort) i =>
+          match s.inp np.node i with
+          | none => acc
+          | some d => if (⟨np.node, i⟩ : NodePort) ∈ inputs then acc else d :: acc) rest
+        copyScan inputs fuel s1 pushed (np.node :: closed) (m ++ [(np.node, s.size)])
+
+/-- reconnecting one clone (Circuit.cpp:156-172). NB: `lazyCreateClockNetwork` looks a clock up in `mapSrc2Dst_clocks` but nothing
+is ever inserted there, so with `copyClocks` every clocked port gets a clock object of its own (as written). -/
+def copyReconnect (m : List (Nat × Nat)) (copyClocks : Bool) (s : State) (e : Nat × Nat) : Res State :=
+  let (old, new) := e
+  (foldRes (fun s i =>
+      match s.inp old i with
+      | none => .ok s
+      | some d =>
+        match lookupMap m d.node with
+        | none => .ok s
+        | some dn => connectInput s new i (some ⟨dn, d.port⟩)) s (List.range (s.numIn old))).bind fun s1 =>
+  foldRes (fun s p =>
+      match s.clk old p with
+      | none => .ok s
+      | some c =>
+        if copyClocks then attachClock (createClock s) new p (some s.nclocks)
+        else attachClock s new p (some c)) s1 (List.range (s1.numClk old))
+
+/-- `Circuit::copySubnet(subnetInputs, subnetOutputs, mapSrc2Dst, copyClocks)` (Circuit.cpp:102-174). `outputs` in the iteration order
+of the `StableSet` (node id, port). -/
+def copySubnet (s : State) (inputs outputs : List NodePort) (copyClocks : Bool) : Res State :=
+  if ¬ (∀ o ∈ outputs, s.live o.node) then .error .ub else
+  let fuel := outputs.length + (List.range s.size).foldl (fun a h => a + s.numIn h) 0 + 1
+  (copyScan inputs fuel s outputs.reverse [] []).bind fun (s1, m) =>
+    let byId := sortByKey s1.nid m
+    let s2 := byId.foldl (fun s e => setFreshId s e.2) s1
+    foldRes (copyReconnect m copyClocks) s2 byId
+
 
 /-- the erase idiom applied to position `idx` of `m_nodes` (Circuit.cpp:403-405 etc.): the move assignment into the
 `unique_ptr` deletes the node that was stored there. -/
@@ -449,6 +545,9 @@ inductive Op where
   | removeRef (h : Nat)
   | eraseNode (idx : Nat)
   | cullOrphanedSignals
+  | cloneNode (src : Nat)
+  | copySubnet (inputs outputs : List NodePort) (copyClocks : Bool)
+  | destroyClock (c : Nat)
 deriving Repr
 
 def step (s : State) : Op → Res State
@@ -470,6 +569,9 @@ def step (s : State) : Op → Res State
   | .removeRef h => removeRef s h
   | .eraseNode idx => eraseNode s idx
   | .cullOrphanedSignals => cullOrphanedSignalNodes s
+  | .cloneNode src => cloneNode s src
+  | .copySubnet ins outs cc => copySubnet s ins outs cc
+  | .destroyClock c => destroyClock s c
 
 /-- run a history; an operation that throws leaves the state as it was (all modelled guards are checked before the first
 mutation) and the history continues, exactly like a caller that catches the exception; `.ub/.abort/.diverge` end it. -/
